@@ -28,7 +28,8 @@ CFG = dict(
          "and wrapped, io.EOF}: grpc's conversions; unary pipeline (real processUnaryRpc -> real Invoke; with and without a reply besides "
          "the error); stream pipeline (real serverStream after 0..2 messages -> real client stream); foreign finals: ALL combinations of "
          "10 statuses x 4 bodies x 3 trailers x 3 resets as unary reply and as stream response (alone / after a message, a clean trailer "
-         "behind); end to end lock-step in bubbles: four RPC kinds x error kinds x every position of small stream programs",
+         "behind); end to end lock-step in bubbles: four RPC kinds x error kinds x every position of small stream programs; a RecvMsg "
+         "already blocked when the handler returns with the read loop parked inside its own cancel() (caller context with a gated Value())",
     assumptions=["status.FromError / FromContextError / FromProto(..).Err() are grpc's: arguments of the model; the concrete instance "
                  "(Check/C03c.v g_from_error, g_from_ctx) is compared with the real library on every grid point",
                  "messages, details, bodies are compared through tokens handed out by the rig's registry (equal values <-> equal tokens)"],
